@@ -325,6 +325,10 @@ def oracle(desc, o):
         seen.update(tags)
     if seen != {trim(v, 2) for v in allv}:
         bad.append(('nodes', {'level': 2, 'attr': 'iter'}, 'iter() misses nodes'))
+    for tag in {trim(v, 2) for v in allv}:
+        if not o['locate'].get(tag):
+            bad.append(('nodes', {'level': 2, 'attr': 'locate'},
+                        'locate(%s) finds nothing below the roots of at' % tag))
     return bad
 
 
@@ -491,17 +495,21 @@ def run_cases(ctx, cases, real_dot=2, model=True):
     '''implementation + oracle + model + diff on the given cases; returns
     (#violations reported, first correspondence mismatch or None)'''
     descs = [d for _, d, _ in cases]
-    impl = ctx.harness('drive_dag.py', {'cases': descs, 'real_dot': real_dot})['cases']
+    res = ctx.harness('drive_dag.py', {'cases': descs, 'real_dot': real_dot})
+    impl = res['cases']
+    if len(descs) > 50:
+        ctx.note('impl_line_coverage', res.get('coverage'))
     nviol = 0
     keys = []
     hits = {}
+    selfbad = []
     hist = {'levels>=2': 0, 'shared': 0, 'diamond': 0, 'feedback': 0, 'kinds>=2': 0}
     for (cid, desc, wf), o in zip(cases, impl):
         if o['selfcheck']:
-            ctx.broken('engine_gen: generated python engine differs from its descriptor',
-                       '\n'.join(o['selfcheck'][:3]),
-                       {'source': 'correspondence', 'case': cid, 'engine': desc})
-            continue
+            # the generated engine does not describe itself as its descriptor
+            # does (renderer bug, or as_vref itself changed): keep looking for a
+            # failing input, report the renderer only if none is found
+            selfbad.append((cid, desc, o['selfcheck']))
         if o['exc'] is not None:
             ctx.violation('construct-raises', {'exception': o['exc']},
                           'Construct raised %s on engine %s' % (o['exc'], cid),
@@ -542,6 +550,11 @@ def run_cases(ctx, cases, real_dot=2, model=True):
                       {'source': 'oracle', 'case': cid, 'engine': small,
                        'original_engine': desc, 'theorem': 'C09_%s' % kind})
         nviol += 1
+    if selfbad and not nviol:
+        cid, desc, sc = selfbad[0]
+        ctx.broken('engine_gen: generated python engine differs from its descriptor',
+                   '\n'.join(sc[:3]),
+                   {'source': 'correspondence', 'case': cid, 'engine': desc})
     if not model:
         return nviol, None, impl
     # ---- model side ------------------------------------------------------
@@ -549,7 +562,7 @@ def run_cases(ctx, cases, real_dot=2, model=True):
     # topological rank, the theorems' hypothesis wf_engineb with that witness
     exprs, kinds = [], []
     for i, ((cid, desc, wf), o) in enumerate(zip(cases, impl)):
-        if o['selfcheck'] or o['exc'] is not None:
+        if o['exc'] is not None:
             continue
         g, t, has_wf = gallina_case(desc, o)
         exprs.append(g)
